@@ -10,6 +10,7 @@ mod c09;
 mod ckey;
 mod crash;
 mod c12;
+mod c19;
 mod rng;
 mod sched;
 mod store;
@@ -81,6 +82,9 @@ fn main() {
         ("store", "exec") => store::exec(&args),
         ("ckey", "exec") => ckey::exec(&args),
         ("c08", "exec") => c08::exec(&args),
+        ("c19", "gen") => c19::gen(&args),
+        ("c19", "exec") => c19::exec(&args),
+        ("c19", "child") => c19::child(&args),
         ("c12", "gen") => c12::gen(&args),
         ("c12", "exec") => c12::exec(&args),
         _ => {
